@@ -425,7 +425,37 @@ func blkSize(b Blk) int {
 	return tlvwalk.VarNumSize(b.T) + tlvwalk.VarNumSize(uint64(b.L)) + b.L
 }
 
+// genAligned: every read returns exactly one whole block (or k whole blocks), with a block size
+// that divides the receive buffer, so that the write offset reaches the end of the buffer
+// exactly on a block boundary -- the one situation in which nothing is ever left to move to the
+// front. (Added after a seeded defect that only skipped the offset reset on that path was
+// missed by the random chunkings of the quick tier.)
+func genAligned(t *rapid.T) Case {
+	var c Case
+	c.Seed = rapid.Byte().Draw(t, "seed")
+	size := rapid.SampledFrom([]int{100, 100, 1408, 2816, 8800, 400, 3200, 4400, 50, 2}).Draw(t, "alignedSize")
+	// type 5 (1 byte); length in 1 or 3 bytes
+	l := size - 2
+	if l >= 253 {
+		l = size - 4
+	}
+	n := (recvBufSize+size-1)/size + rapid.IntRange(1, 40).Draw(t, "extraBlocks")
+	if rapid.Bool().Draw(t, "twice") {
+		n += recvBufSize / size
+	}
+	c.Blocks = []Blk{{T: 5, L: l, Rep: n}}
+	k := rapid.SampledFrom([]int{1, 1, 1, 2, 4}).Draw(t, "blocksPerRead")
+	if size*k > recvBufSize {
+		k = 1
+	}
+	c.Steps = []Step{{N: size * k, Rep: 1}}
+	return c
+}
+
 func genCase(t *rapid.T) Case {
+	if rapid.IntRange(0, 7).Draw(t, "aligned") == 0 {
+		return genAligned(t)
+	}
 	var c Case
 	c.Seed = rapid.Byte().Draw(t, "seed")
 	lo, hi := 300_000, 600_000
